@@ -50,10 +50,21 @@ class StoreHooks(Hooks):
         self.size_pairs = size_pairs      # ptr param -> size param of this function
         self.retbounds = retbounds        # callee qualified name -> index of the size parameter bounding the result
         self.memo = memo
+        # `&array[i]` only forms a pointer: one past the last element is a valid pointer value (the end of a range), so the
+        # subscript may equal the extent there; a subscript that is read or written must be below it
+        # (an address handed to a callee is dereferenced there and gets no such allowance)
         self.addr_only = set()
-        for s in walk_stmts(fn.body):
-            if s.k == 'return' and s.a[0] is not None and s.a[0].k == 'addr' and s.a[0].a[0].k == 'index':
-                self.addr_only.add(id(s.a[0].a[0]))
+        passed = set()
+        for e in all_exprs(fn.body):
+            if e.k == 'call':
+                for x in e.a[2]:
+                    while x.k in ('cast', 'ptrcast'):
+                        x = x.a[-1]
+                    if x.k == 'addr':
+                        passed.add(id(x))
+        for e in all_exprs(fn.body):
+            if e.k == 'addr' and e.a[0].k == 'index' and id(e) not in passed:
+                self.addr_only.add(id(e.a[0]))
 
     def assume_invariants(self, st, fields=None):
         for x, y, c in self.invs:
